@@ -217,8 +217,10 @@ def eval_case(case):
                                                   f"(max rel diff {float(np.max(np.abs(gl - got) / np.abs(got))):.3g})", **ctx))
         # batched or not: a batch-2 model evaluated on two distinct rows (full batch matrix: C10)
         if case["settings"] == "all" and len(case["combo"]) <= 1:
-            mb = pyhf.Model(spec, poi_name="mu", batch_size=2)
+            mb = pyhf.Model(spec, poi_name="mu", batch_size=3)
             rows = [v for _, v in pts[1:3]]
+            # third row: P2 with every interpolation parameter mirrored, so both extrapolation sides occur in the batch
+            rows.append({n: ([-x for x in v] if ps[n]["kind"] == "alpha" else list(v)) for n, v in rows[1].items()})
             got = C.tolist(mb.expected_actualdata(C.tens([L.vector(mb.config, r) for r in rows])))
             for ri, r in enumerate(rows):
                 ex = H.expected(spec, r)
